@@ -117,9 +117,12 @@ enum ROp {
     QueryResultJson,
     /// ToJson::to_json_file on a resource (takes &self): writes a scratch file, returns what it wrote
     ResourceToJsonFile,
+    /// ToCsv::to_csv_string on a dataset / on the store (manifest table): also takes &self
+    DatasetToCsv,
+    StoreCsvManifest,
 }
 
-const ALL_OPS: [ROp; 9] = [ROp::StoreJson, ROp::ResourceToJson, ROp::DatasetToJson, ROp::ResourceInherentJson, ROp::Query, ROp::RelatedText, ROp::Parallel, ROp::QueryResultJson, ROp::ResourceToJsonFile];
+const ALL_OPS: [ROp; 11] = [ROp::StoreJson, ROp::ResourceToJson, ROp::DatasetToJson, ROp::ResourceInherentJson, ROp::Query, ROp::RelatedText, ROp::Parallel, ROp::QueryResultJson, ROp::ResourceToJsonFile, ROp::DatasetToCsv, ROp::StoreCsvManifest];
 
 fn run_op(store: &AnnotationStore, op: ROp) -> String {
     match op {
@@ -168,6 +171,11 @@ fn run_op(store: &AnnotationStore, op: ROp) -> String {
             let _ = std::fs::remove_file(&path);
             out
         }
+        ROp::DatasetToCsv => {
+            let s = store.datasets().next().expect("dataset");
+            ToCsv::to_csv_string(s.as_ref(), None).unwrap_or_else(|e| format!("ERR {}", e))
+        }
+        ROp::StoreCsvManifest => ToCsv::to_csv_string(store, None).unwrap_or_else(|e| format!("ERR {}", e)),
         ROp::QueryResultJson => {
             let q: Query = "SELECT RESOURCE ?r".try_into().expect("query");
             match store.query(q) {
